@@ -395,7 +395,13 @@ func runDKGLifecycle(t *testing.T, rc *RunCtx) {
 }
 
 func init() {
-	propRunners["C17"] = runDKGLifecycle
+	propRunners["C17"] = func(t *testing.T, rc *RunCtx) {
+		if rc.Param("mode", "") == "free" {
+			runLifeFree(t, rc)
+			return
+		}
+		runDKGLifecycle(t, rc)
+	}
 }
 
 func names(ns []*Node) []string {
